@@ -8,10 +8,15 @@ MAXLEN = int(os.environ.get("C18_MAXLEN", "5"))
 
 def _u1_body(info, text, pos):
     lx = Lexer(Parser.lrules)
-    lx.text = text
-    lx.pos = pos
-    line = lx.curlineno()
-    col = lx.curcolno()
+    try:
+        lx.text = text
+        lx.pos = pos
+        line = lx.curlineno()
+        col = lx.curcolno()
+    except Exception as e:
+        # the lemma pokes the position arithmetic directly; a lexer that keeps its position differently is not
+        # wrong for that: U2/U3 (through Parser.parse) carry the claim then
+        raise Skip("position arithmetic not reachable this way: %s" % type(e).__name__)
     # reference: count by a plain loop
     rl, rc = 1, 1
     i = 0
@@ -61,9 +66,17 @@ OFFENDERS = [
     (b"", b"true", False), (b"", b"header", False), (b"if ", b"keep", False), (b"if not ", b"stop", False),
     (b"if anyof (true, ", b"discard", False),
 ]
+# rejections of the "every other" kind: (text before, token at which the script becomes invalid); only
+# "not before that token" and "independent of what follows" are asserted
+OTHERS = [
+    (b'require "imap4flags"; if hasflag ', b"{"), (b'require "imap4flags"; if hasflag :is ', b"{"),
+ (b"if true ", b";"),
+    (b"if header ", b"{"), (b"keep", b"}"), (b"if anyof (true ", b"{"), (b"if not ", b"{"), (b'if header [ "a" ', b"]]"),
+    (b'require [ "fileinto" ', b";"), (b"if true { keep; } else ", b";"), (b"stop ", b"{"), (b"if anyof ( ", b")"),
+]
 SUFFIXES = [b"", b' "x";\nkeep;\n', b"\n}\n!!\n", b' :is "z" { stop; }']
 NP = len(PREFIXES)
-NO = len(OFFENDERS)
+NO = len(OFFENDERS) + len(OTHERS)
 U2_PREFIX = int(os.environ.get("U2_PREFIX", "0"))
 
 
@@ -81,7 +94,12 @@ def _native_u2(pi, nl, sp, crlf, oi):
         # prefix valid for the parser under test
         src = src.replace(b"reject text:\nline \xe2\x82\xac\n.\n;", b'reject "line \xe2\x82\xac";')
     prefix = src.replace(b"\n", eol)
-    pre, tok, lexical = OFFENDERS[oi]
+    weak = oi >= len(OFFENDERS)
+    if weak:
+        pre, tok = OTHERS[oi - len(OFFENDERS)]
+        lexical = False
+    else:
+        pre, tok, lexical = OFFENDERS[oi]
     head = prefix + eol * nl + b" " * sp + pre
     want_line = 1 + head.count(b"\n")
     want_col = sp + len(pre) + 1
@@ -100,6 +118,18 @@ def _native_u2(pi, nl, sp, crlf, oi):
         line = int(m.group(1)) if m else None
         ep = p.error_pos
         kind = "lexical" if lexical else tok.decode("ascii")
+        if weak:
+            kind = "other/" + (pre + tok).decode("ascii").strip()
+            if line != ep[0]:
+                raise Violation("C18/line-vs-error_pos/%s" % kind, {"script": shown, "error": p.error, "error_pos": list(ep)})
+            if (ep[0], ep[1]) < (want_line, want_col):
+                raise Violation("C18/position-before-offender/%s" % kind,
+                                {"script": shown, "error": p.error, "error_pos": list(ep), "offender_at": [want_line, want_col]})
+            cur = (p.error, tuple(ep[:2]))
+            if seen is not None and cur != seen:
+                raise Violation("C18/depends-on-suffix/%s" % kind, {"script": shown, "a": repr(seen), "b": repr(cur)})
+            seen = cur
+            continue
         if line != want_line or ep[0] != want_line:
             raise Violation("C18/line/%s" % kind, {"script": shown, "error": p.error, "error_pos": list(ep),
                                                    "want_line": want_line})
